@@ -186,9 +186,12 @@ class Report(object):
         os.makedirs(EVIDENCE_DIR, exist_ok=True)
         with open(os.path.join(EVIDENCE_DIR, '%s.json' % self.prop), 'w') as f:
             json.dump(ev, f, indent=1, default=str)
+        seen = {}
         for it in known_hits:
-            print('KNOWN-FINDING: property=%s %s [%s] %s' % (
-                self.prop, it.finding_key, it.name, known[it.finding_key]))
+            seen.setdefault(it.finding_key, []).append(it.name)
+        for key, names in sorted(seen.items()):
+            print('KNOWN-FINDING: property=%s %s %s (reproduced by %d item(s), e.g. %s)' % (
+                self.prop, key, known[key], len(names), names[0]))
         print('%s tier=%s items=%d confirmed=%d inconclusive=%d known=%d violations=%d '
               'errors=%d paths=%d queries=%d solver_s=%.1f wall_s=%.1f' % (
                   self.prop, self.tier, len(self.items), n_conf, n_inc, len(known_hits),
